@@ -4,7 +4,7 @@ only exists in the builder's version (git show w/<name>:tools/extract.py) into t
 import ast, re, subprocess, sys
 name = sys.argv[1]
 p = '/verif/tools/extract.py'
-ours = subprocess.run(["git", "-C", "/verif", "show", "HEAD:tools/extract.py"], capture_output=True, text=True).stdout
+ours = subprocess.run(["git", "-C", "/verif", "show", (sys.argv[2] if len(sys.argv) > 2 else "HEAD") + ":tools/extract.py"], capture_output=True, text=True).stdout
 theirs = subprocess.run(["git", "-C", "/verif", "show", f"w/{name}:tools/extract.py"], capture_output=True, text=True).stdout
 def top(src):
     t = ast.parse(src)
@@ -21,14 +21,16 @@ lines = theirs.splitlines(keepends=True)
 chunks, tables = [], {}
 for n in tt.body:
     seg = "".join(lines[n.lineno - 1 - len(getattr(n, 'decorator_list', [])):n.end_lineno])
-    if isinstance(n, (ast.FunctionDef, ast.ClassDef)) and n.name not in o:
+    if isinstance(n, (ast.FunctionDef, ast.ClassDef)) and n.name != "main" and (
+            n.name not in o or ast.dump(n) != ast.dump(o[n.name])) and not n.name.startswith("table_") or (
+            isinstance(n, ast.FunctionDef) and n.name.startswith("table_") and n.name not in o):
         chunks.append(seg)
     elif isinstance(n, ast.Assign) and len(n.targets) == 1 and isinstance(n.targets[0], ast.Name):
         nm = n.targets[0].id
         if nm == "TABLES" and isinstance(n.value, ast.Dict):
             for k, v in zip(n.value.keys, n.value.values):
                 tables[k.value] = ast.unparse(v)
-        elif nm not in o and nm not in ("VERIF", "REPO", "GEN"):
+        elif nm not in ("VERIF", "REPO", "GEN", "TABLES") and (nm not in o or ast.dump(n) != ast.dump(o[nm])):
             chunks.append(seg)
     elif isinstance(n, ast.Assign) and isinstance(n.targets[0], ast.Subscript) and ast.unparse(n.targets[0].value) == "TABLES":
         tables[n.targets[0].slice.value] = ast.unparse(n.value)
